@@ -337,7 +337,9 @@ def _evaluate(case):
             out.append(("C02.attrs.cmax", tag + "-cost-above-cmax-by-less-than-one",
                         "a computable cost exceeds the reported maximal cost by %r (< 1: the fraction lost by reporting the bound as "
                         "an integer): %s" % (top - cmax, facts), cell))
-        elif cmax > loose:
+        elif cmax > np.ceil(loose):
+            # cmax is reported as an integer: an upper bound of the costs may exceed the real-valued trivial bound by the
+            # rounding up, not by more
             out.append(("C02.attrs.cmax", tag + "-cmax-above-trivial-bound", facts, None))
     elif cmax is None or not (top - (ZNCC_TOL if method == "zncc" else 0) <= cmax <= loose) or (method == "zncc" and cmax != 1):
         out.append(("C02.attrs.cmax", "%s-%s" % (method, kind + ("-by-name" if is_by_name(case) else "")),
